@@ -2934,6 +2934,48 @@ func c20Render(c *Ctx) {
 		c.undecided("C20.d", fname+"/loops", pos, "expected a range over %s.graphicsLast calling deleteFn and a range over %s.graphicsNext calling writeTo", recv.Name(), recv.Name())
 		return
 	}
+	// namedScope: the body of the placement loop whose iteration contains b, if nothing that the conditions of the
+	// iteration read (the loop variable, refresh, the two lists) is assigned in it: there a local defined once can
+	// be replaced by its defining expression wherever it is read
+	stableBody := map[*c20Loop]bool{}
+	for _, l := range []*c20Loop{L1, L2} {
+		l := l
+		stableBody[l] = !c20AnyNode(l.rs.Body, func(n ast.Node) bool {
+			var lhs []ast.Expr
+			switch t := n.(type) {
+			case *ast.AssignStmt:
+				lhs = t.Lhs
+			case *ast.IncDecStmt:
+				lhs = []ast.Expr{t.X}
+			case *ast.RangeStmt:
+				lhs = []ast.Expr{t.Key, t.Value}
+			case *ast.UnaryExpr:
+				if t.Op == token.AND {
+					lhs = []ast.Expr{t.X}
+				}
+			}
+			for _, e := range lhs {
+				if e == nil {
+					continue
+				}
+				if recvField(e, "refresh") || recvField(e, "graphicsLast") || recvField(e, "graphicsNext") {
+					return true
+				}
+				if id, ok := unparen(e).(*ast.Ident); ok && info.ObjectOf(id) == l.val {
+					return true
+				}
+			}
+			return false
+		})
+	}
+	namedScope := func(p token.Pos) ast.Node {
+		for _, l := range []*c20Loop{L1, L2} {
+			if stableBody[l] && p >= l.rs.Body.Pos() && p <= l.rs.Body.End() {
+				return l.rs.Body
+			}
+		}
+		return nil
+	}
 	// leaves of an edge condition
 	edgeAlts := func(b *cfg.Block, si int) [][]c20Leaf {
 		cond := g.BranchCond(b)
@@ -2959,6 +3001,10 @@ func c20Render(c *Ctx) {
 				return [][]c20Leaf{{{e: cond.Expr, pol: si != 0}}} // infeasible edge: an alternative nobody accepts
 			}
 			alts = keep
+		}
+		// a local boolean defined once inside a placement loop stands for its defining expression
+		if sc := namedScope(cond.Expr.Pos()); sc != nil {
+			alts, _ = c20ExpandNamed(info, alts, sc, 0)
 		}
 		return alts
 	}
@@ -3035,13 +3081,14 @@ func c20Render(c *Ctx) {
 						}
 						continue
 					}
-					// a membership helper: H(v, recv.<list>) (see c20mem.go)
-					if call, ok := unparen(c20Or(l.e)).(*ast.CallExpr); ok && l.pol {
-						if m := c20MembershipOf(c, info, calleeOf(info, call)); m != nil && m.elem < len(call.Args) && m.lst < len(call.Args) {
-							if id, ok := unparen(call.Args[m.elem]).(*ast.Ident); ok && info.Uses[id] == v && listIs(call.Args[m.lst], list, outer) {
-								found = true
-							}
-						}
+					// a membership test: a helper H(v, recv.<list>), slices.ContainsFunc / IndexFunc with a
+					// samePlacement predicate (see c20mem.go)
+					var sc ast.Node
+					if outer != nil && stableBody[outer] {
+						sc = outer.rs.Body
+					}
+					if el, lst, _, ok := c20MemberLeaf(c, info, l, sc); ok && el == v && listIs(lst, list, outer) {
+						found = true
 					}
 				}
 				if !found {
